@@ -326,11 +326,18 @@ def run(ctx: Context, rep) -> None:
                message="the caller receives the workers' return values")
     res_defs = [n for n in wm.body_nodes() if isinstance(n, ast.Assign) and
                 dotted(n.targets[0]) == "results"]
-    ok_res = len(res_defs) == 1 and isinstance(
-        res_defs[0].value, ast.ListComp) and isinstance(
-            res_defs[0].value.generators[0].target, ast.Tuple) and \
-        dotted(res_defs[0].value.elt) == dotted(
-            res_defs[0].value.generators[0].target.elts[1])
+    ok_res = False
+    if len(res_defs) == 1 and isinstance(res_defs[0].value, ast.ListComp):
+        lc = res_defs[0].value
+        tgt = lc.generators[0].target
+        if isinstance(tgt, ast.Tuple) and len(tgt.elts) == 2:
+            # [result for _, result in outputs]
+            ok_res = dotted(lc.elt) == dotted(tgt.elts[1])
+        elif isinstance(tgt, ast.Name):
+            # [output[1] for output in outputs]
+            ok_res = isinstance(lc.elt, ast.Subscript) and dotted(
+                lc.elt.value) == tgt.id and isinstance(
+                    lc.elt.slice, ast.Constant) and lc.elt.slice.value == 1
     rep.ob("C09.collect", ok_res, loc=wm.loc(), where=wm.qualname,
            construct=short(res_defs[0]) if res_defs else "<none>",
            message="results are the second components, in output order")
@@ -353,31 +360,20 @@ def run(ctx: Context, rep) -> None:
            message="the filler's _updated_infos travel back with default "
            "pickling")
     gi = filler.methods["get_updated_infos"]
-    ui = filler.methods["_update_infos"]
-    ucfg = ctx.cfg(ui)
-
-    def uhook(e, st, rec):
-        if isinstance(e, ast.Attribute) and e.attr == "shard_lists":
-            return frozenset({"lists"})
-        if isinstance(e, ast.Call) and ctx.is_call(ui, e,
-                                                   "ShardsList.write_config"):
-            inner = rec(e.func.value) if isinstance(e.func, ast.Attribute) \
-                else frozenset()
-            return frozenset(inner | {"written"})
-        return None
-
-    utf = TagFlow(ucfg, {}, hook=uhook)
-    at_exit = utf.at(ucfg.exit).get("self._updated_infos", frozenset())
-    no_filter = not any(isinstance(x, (ast.If, ast.Break, ast.Continue,
-                                       ast.Slice)) or (
-        isinstance(x, ast.comprehension) and x.ifs)
-                        for x in ast.walk(ui.node))
-    ok_ui = {"lists", "written"} <= set(at_exit) and no_filter and any(
-        isinstance(n, ast.Return) and dotted(n.value) == "self._updated_infos"
-        for n in gi.body_nodes())
+    # (_update_infos is read in its inlined form, see inline.FORCE_INLINE)
+    from sa import collalg
+    ui = filler.methods["__exit__"]
+    t = collalg.CollAlg(ui).env.get("self._updated_infos", ("empty", ))
+    parts = [p for p in collalg.concat_parts(t)
+             if not (p[0] == "src" and p[1] == "self._updated_infos")]
+    ok_ui = len(parts) == 1 and parts[0][0] == "map" and \
+        parts[0][1][0] == "items" and parts[0][1][1][0] == "src" and \
+        parts[0][1][1][1].endswith("shard_lists") and \
+        parts[0][2].startswith("_v.write_config(") and any(
+            isinstance(n, ast.Return) and dotted(n.value) ==
+            "self._updated_infos" for n in gi.body_nodes())
     rep.ob("C09.collect", ok_ui, loc=ui.loc(), where=ui.qualname,
-           construct="_updated_infos <- write_config(...) of every list in "
-           f"context.shard_lists (carries {sorted(at_exit)})",
+           construct="_updated_infos = " + collalg.pretty(t)[:140],
            message="every list the worker wrote is written with digests and "
            "reported back (no filter, slice or early exit)")
     # writers touch only their own fresh files (who-may-create/delete), and
